@@ -19,29 +19,32 @@ Inductive pentry :=
 Record pfile := mkFile { pf_page : N -> pentry; pf_size : N }.
 
 (* ---------- persist: the file a clean Close leaves behind ---------- *)
-Fixpoint find_page (t : tree) (p : N) : option pentry :=
+Definition node_entry (t : tree) : pentry :=
   match t with
-  | Leaf pid es => if pid =? p then Some (PUsed true es) else None
-  | Node pid cs =>
-      if pid =? p then Some (PUsed false (map (fun e => (fst e, pid_of (snd e))) cs))
-      else (fix go (cs : list (N * tree)) : option pentry :=
-              match cs with
-              | [] => None
-              | e :: r => match find_page (snd e) p with Some x => Some x | None => go r end
-              end) cs
+  | Leaf _ es => PUsed true es
+  | Node _ cs => PUsed false (map (fun e => (fst e, pid_of (snd e))) cs)
   end.
 
-Fixpoint free_next (fl : list N) (p : N) : option N :=
+(* the page table: the pages of the tree ... *)
+Fixpoint ptab (t : tree) : list (N * pentry) :=
+  (pid_of t, node_entry t) ::
+  match t with
+  | Leaf _ _ => []
+  | Node _ cs => flat_map (fun e => ptab (snd e)) cs
+  end.
+(* ... and the pages of the free list, each pointing to the next one (0 = end) *)
+Fixpoint ftab (fl : list N) : list (N * pentry) :=
   match fl with
-  | [] => None
-  | h :: r => if h =? p then Some (match r with n :: _ => n | [] => 0 end) else free_next r p
+  | [] => []
+  | h :: r => (h, PFree (match r with n :: _ => n | [] => 0 end)) :: ftab r
   end.
-
-Definition page_of (root : tree) (fl : list N) (p : N) : pentry :=
-  match find_page root p with
-  | Some e => e
-  | None => match free_next fl p with Some n => PFree n | None => PBlank end
+Fixpoint assoc (p : N) (tab : list (N * pentry)) : pentry :=
+  match tab with
+  | [] => PBlank
+  | x :: r => if fst x =? p then snd x else assoc p r
   end.
+Definition page_of (root : tree) (fl : list N) : N -> pentry :=
+  let tab := ptab root ++ ftab fl in fun p => assoc p tab.
 
 Section Reopen.
   Variable M : nat.
@@ -70,6 +73,16 @@ Section Reopen.
 
   (* Tree.Iterate from page pid: the reachable nodes, as a term.  None = the traversal leaves the tree (a child
      pointer 0 fails an assert; a page without page id indexes tailPages out of range) or fuel exhausted. *)
+  Fixpoint rebuild_kids (rec : N -> option tree) (es : list (N * N)) : option (list (N * tree)) :=
+    match es with
+    | [] => Some []
+    | e :: r =>
+        if snd e =? 0 then None
+        else match rec (snd e) with
+             | None => None
+             | Some t => match rebuild_kids rec r with None => None | Some r' => Some ((fst e, t) :: r') end
+             end
+    end.
   Fixpoint rebuild (fuel : nat) (pg : N -> pentry) (pid : N) : option tree :=
     match fuel with
     | O => None
@@ -77,17 +90,7 @@ Section Reopen.
       match pg pid with
       | PUsed true es => Some (Leaf pid es)
       | PUsed false es =>
-          let fix go (es : list (N * N)) : option (list (N * tree)) :=
-              match es with
-              | [] => Some []
-              | (k, c) :: r =>
-                  if c =? 0 then None
-                  else match rebuild f pg c with
-                       | None => None
-                       | Some t => match go r with None => None | Some r' => Some ((k, t) :: r') end
-                       end
-              end in
-          match go es with None => None | Some cs => Some (Node pid cs) end
+          match rebuild_kids (rebuild f pg) es with None => None | Some cs => Some (Node pid cs) end
       | _ => None
       end
     end.
